@@ -179,6 +179,53 @@ REPLACE_SWITCH = (
     "janet_call ( janet_unwrap_function ( $const ) , s -> captures -> count - $cs . cap , s -> captures -> data + $cs . cap ) ; } "
     "janet_vm . stackn - = used ; break ; } }")
 
+# rules in whose value switch the C-function call was found bracketed by janet_gclock / janet_gcunlock (filled by gc_bracket,
+# reported as a comment in Gen/PegSkel.lean and in the tie info of checks/C12.py)
+GC_BRACKETED = []
+
+
+def gc_bracket(toks):
+    """`int H = janet_gclock(); X = janet_unwrap_cfunction(C)(ARGS); janet_gcunlock(H);` -> the call alone.
+    The pair suspends the collector while the C function runs (janet fix b91ad64); it reads and writes nothing of the modelled
+    match state, so it is dropped - but only in exactly this shape: lock and unlock on the SAME handle, a handle used nowhere
+    else, ONE statement between them, and that statement the direct call of the C-function constant.  Anything else that
+    mentions janet_gclock / janet_gcunlock (unlock missing, another handle, more statements inside the bracket, a lock around the
+    janet_call branch or around the whole switch) is outside the statement language.  -> (tokens, number of brackets dropped)"""
+    out, i, n, dropped = [], 0, len(toks), 0
+    while i < n:
+        if toks[i] == "janet_gclock" and i >= 3 and toks[i - 3] == "int" and toks[i - 1] == "=" and \
+                re.fullmatch(r"[A-Za-z_]\w*", toks[i - 2]) and toks[i + 1:i + 4] == ["(", ")", ";"] and out[-3:] == toks[i - 3:i]:
+            h = toks[i - 2]
+            j = i + 4
+            # the one statement inside the bracket: up to the first `;` at parenthesis depth 0, no braces
+            k, d = j, 0
+            while k < n and not (toks[k] == ";" and d == 0):
+                if toks[k] in ("{", "}"):
+                    k = n
+                    break
+                d += toks[k] == "("
+                d -= toks[k] == ")"
+                k += 1
+            inner = toks[j:k]
+            unlock = ["janet_gcunlock", "(", h, ")", ";"]
+            if k < n and toks[k + 1:k + 6] == unlock and len(inner) > 4 and re.fullmatch(r"[A-Za-z_]\w*", inner[0]) and \
+                    inner[1:4] == ["=", "janet_unwrap_cfunction", "("] and h not in inner and \
+                    sum(1 for t in toks if t == h) == 2:
+                del out[-3:]
+                out += inner + [";"]
+                i = k + 6
+                dropped += 1
+                continue
+        out.append(toks[i])
+        i += 1
+    if any(t in ("janet_gclock", "janet_gcunlock") for t in out):
+        raise Unsupported("janet_gclock / janet_gcunlock in the RULE_REPLACE value computation are not ONE pair on the same handle "
+                          "around exactly the direct call of the C-function constant (`int h = janet_gclock(); cap = "
+                          "janet_unwrap_cfunction(constant)(..); janet_gcunlock(h);`): `%s`" % " ".join(
+                              t for idx, t in enumerate(out)
+                              if any(x in ("janet_gclock", "janet_gcunlock") for x in out[max(0, idx - 8):idx + 9]))[:300])
+    return out, dropped
+
 
 # ------------------------------------------------------------------------------------------------ IR extraction
 _CASTS = {"int32_t", "uint32_t", "int", "double", "size_t", "int64_t", "uint64_t", "void"}
@@ -1000,7 +1047,7 @@ def conv(stmts, ex, end=".fall", loops=None):
             raise Unsupported("continue outside a loop")
         return ".cont"
     if k == 'switch':
-        toks = st[1] + ["{"] + st[2] + ["}"]
+        toks, gc_pairs = gc_bracket(st[1] + ["{"] + st[2] + ["}"])
         # roles: the constant = a Janet local defined as s->constants[rule[k]]; the result = the Janet local assigned in the body;
         # the capture state = the CapState local mentioned as `X . cap`
         consts = [n for n in ex.val if re.fullmatch(r"\(\.const \d+\)", ex.valdef.get(n, ""))]
@@ -1014,6 +1061,8 @@ def conv(stmts, ex, end=".fall", loops=None):
             raise Unsupported("switch statement differs from the RULE_REPLACE value computation the IR knows: " +
                               token_diff(REPLACE_SWITCH, canon_))
         kk = int(re.fullmatch(r"\(\.const (\d+)\)", ex.valdef[consts[0]]).group(1))
+        if gc_pairs:
+            GC_BRACKETED.append(gc_pairs)
         tail = conv(rest, ex, end, loops)
         return "(.seq (.valDef %d (.replaceOf %d %d)) %s)" % (ex.val[caps[0]], kk, ex.cs[css[0]], tail)
     if k == 'for' and " ".join(st[3]) in ("%s --" % st[1][1] if len(st[1]) > 1 else "", "-- %s" % st[1][1] if len(st[1]) > 1 else ""):
@@ -1148,6 +1197,7 @@ def extract_ir(case_text):
             raise Unsupported("preprocessor conditional other than `#ifdef JANET_INT_TYPES ... #endif`")
         case_text = re.sub(r"^[ \t]*#[ \t]*(ifdef JANET_INT_TYPES|endif)[ \t]*$", "", case_text, flags=re.M)
     loops = []
+    del GC_BRACKETED[:]
     return conv(parse_case(case_text), Extract(), ".fall", loops), loops
 
 
@@ -1220,7 +1270,7 @@ def extract(tree):
     conf = csrc.strip_comments(csrc.read(tree, "src/conf/janetconf.h"))
     INT_TYPES[0] = not re.search(r"^[ \t]*#[ \t]*define[ \t]+JANET_NO_INT_TYPES\b", conf, re.M)
     body = csrc.func_body(src, "peg_rule")
-    progs, problems, canons, loops = {}, {}, {}, {}
+    progs, problems, canons, loops, gc_locked = {}, {}, {}, {}, []
     for labels, text in gen_peg.split_cases(body):
         if labels == ("default",):
             continue
@@ -1231,13 +1281,15 @@ def extract(tree):
             if lab in IR_RULES:
                 try:
                     progs[lab], loops[lab] = extract_ir(text)
+                    if GC_BRACKETED:
+                        gc_locked.append(lab)
                 except Unsupported as e:
                     progs[lab], loops[lab] = ".fall", []
                     problems[lab] = str(e)
     missing = [r for r in IR_RULES if r not in progs]
     if missing:
         raise ExtractError("peg_rule has no case for %s" % missing)
-    return dict(progs=progs, problems=problems, canons=canons, loops=loops)
+    return dict(progs=progs, problems=problems, canons=canons, loops=loops, gc_locked=sorted(gc_locked))
 
 
 def render(tree):
@@ -1247,6 +1299,10 @@ def render(tree):
     for r in IR_RULES:
         if r in x["problems"]:
             out.append("-- NOT TRANSLATED: %s" % x["problems"][r].replace("\n", " "))
+        if r in x["gc_locked"]:
+            out.append("-- %s: the direct call of a C-function constant is bracketed by `int h = janet_gclock(); .. janet_gcunlock(h);`"
+                       " (collector suspended during the callback; paired on one handle around exactly that call, no effect on the"
+                       " modelled match state: dropped)" % r)
         src = x["progs"][r]
         # loops: body and rest as definitions of their own (inner loops first), so that Peg/TieSkel.lean can name them
         for i, (b, a) in enumerate(x["loops"][r]):
